@@ -1,3 +1,4 @@
+import PT.Lemmas.Refine
 import PT.Lemmas.Map
 /-!
 # C01 — Map/set contents match an abstract map after any operation history
@@ -105,5 +106,59 @@ theorem collect_treeWF (xs : List (Pfx w × V)) : (PMap.collect xs).TreeWF := by
 /-- non-vacuity: a concrete reachable state with host bits and a leftover value-less node -/
 example : ((((PMap.empty : PMap 8 Nat).insert ⟨0x5f#8, 4, by omega⟩ 1).1.insert ⟨0x40#8, 2, by omega⟩ 2).1.removeKeepTree ⟨0x50#8, 4, by omega⟩).1.TreeWF :=
   PMap.removeKeepTree_treeWF (PMap.insert_treeWF (PMap.insert_treeWF PMap.empty_treeWF _ _) _ _) _
+
+
+/-! ### refinement of the abstract map (`PT/Spec.lean`: a key-sorted association list) -/
+
+/-- **abstract-map refinement**: after *any* finite history of `insert`, `entry().or_insert`, value
+writes, `remove`, `remove_keep_tree`, `remove_children`, completed `retain`, `clear`, `collect`,
+and `set` / `remove` through mutable views (`view_mut_at` + `left`/`right` steps), starting from the
+empty map, the entry list of the trie is the abstract association list to which the same calls were
+applied (`PMap.specRun` folds `PMap.specApply`: `Spec.update`, `Spec.erase`, `Spec.modify`, …; the
+concrete state is threaded along only to resolve the key a view write addresses, since a view may
+sit on a value-less node that the abstract map cannot see) -/
+theorem history_refines_abstract_map (ops : List (PMap.Op w V)) (hc : ∀ op ∈ ops, op.Complete) :
+    (PMap.run ops (PMap.empty : PMap w V)).entries = PMap.specRun ops PMap.empty [] :=
+  PMap.history_refines ops hc
+
+/-- … and `get` / `get_key_value` / `contains_key` on that state answer what the abstract map answers -/
+theorem get_after_history (ops : List (PMap.Op w V)) (hc : ∀ op ∈ ops, op.Complete) (q : Pfx w) :
+    (PMap.run ops (PMap.empty : PMap w V)).getKeyValue q = Spec.lookup (PMap.specRun ops PMap.empty []) q := by
+  rw [← PMap.history_refines ops hc]
+  exact PMap.getKeyValue_refines (PMap.run_inv ops).tree q
+
+/-- one step of the refinement, from any state satisfying the invariant -/
+theorem step_refines {m : PMap w V} (h : m.Inv) (op : PMap.Op w V) (hc : op.Complete) :
+    (op.apply m).entries = PMap.specApply m m.entries op := PMap.apply_refines h op hc
+
+/-- `TrieViewMut::set(x)` on a view at a real node: the entry under the node's key becomes
+`(node's existing prefix, x)`, everything else is untouched; on a virtual position nothing changes -/
+theorem viewSet_spec {m : PMap w V} (h : m.TreeWF) {v : View w} (hg : View.Good m.root v) (x : V) (e : Pfx w × V) :
+    e ∈ (m.viewSet v x).1.entries ↔
+      (match v.virt, (v.node m.root).pfx? with
+       | none, some np => (e ∈ m.entries ∧ e.1.net ≠ np.net) ∨ e = (np, x)
+       | _, _ => e ∈ m.entries) := PMap.viewSet_mem h hg x e
+
+/-- `TrieViewMut::remove()`: exactly the view's own entry is removed -/
+theorem viewRemove_spec {m : PMap w V} (h : m.TreeWF) {v : View w} (hg : View.Good m.root v) (e : Pfx w × V) :
+    e ∈ (m.viewRemove v).1.entries ↔
+      (match v.virt, (v.node m.root).pfx? with
+       | none, some np => e ∈ m.entries ∧ e.1.net ≠ np.net
+       | _, _ => e ∈ m.entries) := PMap.viewRemove_mem h hg e
+
+/-- the lookup of the abstract map: the entry with the key of `q`, if any -/
+theorem get_eq_spec {m : PMap w V} (h : m.TreeWF) (q : Pfx w) :
+    m.getKeyValue q = Spec.lookup m.entries q ∧ m.get q = (Spec.lookup m.entries q).map (·.2) :=
+  ⟨PMap.getKeyValue_refines h q, PMap.get_refines h q⟩
+
+/-- non-vacuity of the history theorem: a history with a re-insert under a different representation,
+a value write, a structural and a keep-tree removal and a completed retain -/
+example : ∀ op ∈ ([.insert ⟨0x5f#8, 4, by omega⟩ 1, .insert ⟨0x50#8, 4, by omega⟩ 2, .modify ⟨0x51#8, 4, by omega⟩ (· + 1),
+    .removeKeepTree ⟨0x40#8, 2, by omega⟩, .retain (fun _ v => v != 0) none, .remove ⟨0x50#8, 4, by omega⟩,
+    .viewSet ⟨0x40#8, 1, by omega⟩ [true] 7] : List (PMap.Op 8 Nat)),
+    op.Complete := by
+  intro op h
+  simp only [List.mem_cons, List.mem_nil_iff, or_false] at h
+  rcases h with h | h | h | h | h | h | h <;> subst h <;> first | trivial | rfl
 
 end PT.C01
